@@ -155,6 +155,11 @@ def reportedIds (o : List Out) : List Nat := o.filterMap fun | .report i _ => so
 def ids (l : List (Nat × Nat)) : List Nat := l.map Prod.snd
 def keys (l : List (Nat × Nat)) : List Nat := l.map Prod.fst
 
+/-- specification of the retransmission block for a list `l` of stored entries: nothing if `l` is
+empty, otherwise the packets of `l` in list order followed by one `<r/>` -/
+def resendBlock (l : List (Nat × Nat)) : List Wire :=
+  if l.isEmpty then [] else (l.map fun e => Wire.pkt e.2) ++ [Wire.r]
+
 /-! ### specification-side counting (independent of `step`) -/
 
 def Op.isEnabledNew : Op → Bool
